@@ -5,7 +5,7 @@ META = {
     "enabled": True,
     "engine": "kcp",
     "technique": "Coq invariant proof of the RTO clamp for all ack/timestamp sequences; sender-side exactly-once theorem under in-order, timely acknowledgements; clean-path simulation grid of the real cores",
-    "level_text": "Proved for every sequence of calls and inputs, including forged acknowledgement timestamps and arbitrary clock values: min RTO (30/100 ms) <= rx_rto <= 60 s, as long as the no-delay mode is not re-configured mid-connection; the clamp of one RTT sample is proved separately. Exactly-once, sender side (C18b.v): a flush retransmits an already transmitted segment ONLY on timeout, fast or early retransmission (c18_retransmit_causes); fastack counters grow only through ACKs for later numbers (c18_fastack_causes); a transmission arms resendts = ts + rto with rto >= min RTO, so no timeout fires within min RTO of it (c18_no_rto_before_minrto); and for every history satisfying (H1) acknowledgements arrive in order and (H2) every transmitted segment is acknowledged less than min RTO after its transmission - what a FIFO loss-free path with 2D + peer interval < min RTO delivers - every segment is put on the wire exactly once and xmit <= 1 in every state (c18_clean_sender). Time passing INSIDE a call (an output callback that blocks tx ms per datagram) is modelled by flush_t / input_t / update_t (FlushT.v: the clock is re-read where kcp.go re-reads it; equal to flush / input / update at tx = 0, c18c_*_zero), run against the real core with a blocking callback, and C18c.v proves that the retransmission timer of every transmitted segment is armed from a clock reading at most ONE callback time older than the segment's own timestamp, never from the start of the flush (c18c_timer_lag, c18c_timer_lag_nowrap, c18c_flush_t_timer_lag). PARTIAL: that the two-endpoint clean path yields (H1) and (H2) is a timed whole-system induction that is not mechanised; it is decided by a grid of deterministic clean-path simulations on the real cores under the fake clock (every sequence number must appear exactly once), replayed in the model, plus clean-path simulations over a slow link (blocking callback, the peer working meanwhile; monitors only).",
+    "level_text": "Proved for every sequence of calls and inputs, including forged acknowledgement timestamps and arbitrary clock values: min RTO (30/100 ms) <= rx_rto <= 60 s, as long as the no-delay mode is not re-configured mid-connection; the clamp of one RTT sample is proved separately. Exactly-once, sender side (C18b.v): a flush retransmits an already transmitted segment ONLY on timeout, fast or early retransmission (c18_retransmit_causes); fastack counters grow only through ACKs for later numbers (c18_fastack_causes); a transmission arms resendts = ts + rto with rto >= min RTO, so no timeout fires within min RTO of it (c18_no_rto_before_minrto); and for every history satisfying (H1) acknowledgements arrive in order and (H2) every transmitted segment is acknowledged less than min RTO after its transmission - what a FIFO loss-free path with 2D + peer interval < min RTO delivers - every segment is put on the wire exactly once and xmit <= 1 in every state (c18_clean_sender). Time passing INSIDE a call (an output callback that blocks tx ms per datagram) is modelled by flush_t / input_t / update_t (FlushT.v: the clock is re-read where kcp.go re-reads it; equal to flush / input / update at tx = 0, c18c_*_zero), run against the real core with a blocking callback, and C18c.v proves that the retransmission timer of every transmitted segment is armed from a clock reading at most ONE callback time older than the segment's own timestamp, never from the start of the flush (c18c_timer_lag, c18c_timer_lag_nowrap, c18c_flush_t_timer_lag); and the clean-sender theorem is proved for every tx >= 0 (C18d.v, c18d_clean_sender_t: over run_t, with (H2t) every outstanding segment is acknowledged before it is min RTO - tx old even at the END of the call that examines it, measured wrap-safely; inv / rto_inv preservation re-proved for flush_t / input_t / update_t; the tx = 0 instance gives back c18_clean_sender, c18d_zero_instance). PARTIAL: that the two-endpoint clean path yields (H1) and (H2) is a timed whole-system induction that is not mechanised; it is decided by a grid of deterministic clean-path simulations on the real cores under the fake clock (every sequence number must appear exactly once), replayed in the model, plus clean-path simulations over a slow link (blocking callback, the peer working meanwhile; monitors only).",
     "level_note": K.TRUST + " Partial: the step from the two-endpoint clean path to the hypotheses (H1), (H2) of c18_clean_sender is established by simulation over a configuration grid, not by a theorem.",
 }
 OBLIGATIONS = ["c18_rto_bounds", "c18_rto_max", "c18_nodelay_minrto", "c18_update_ack_clamped"]
@@ -23,11 +23,18 @@ TIMED_OBLIGATIONS = ["c18c_flush_t_zero", "c18c_input_t_zero", "c18c_update_t_ze
                      "c18c_timer_lag_invariant", "c18c_timer_lag", "c18c_timer_lag_nowrap", "c18c_flush_t_timer_lag", "c18c_example"]
 
 
+CLEAN_T_OBLIGATIONS = ["c18d_step_t_zero", "c18d_run_t_zero", "c18d_flush_t_inv", "c18d_flush_t_wire", "c18d_timer_armed", "c18d_no_rto_before_minrto_t",
+                       "c18d_clean_sender_t", "c18d_clean_sender_t_always", "c18d_clean_step_t", "c18d_clean_flush_t", "c18d_new_endpoint_t",
+                       "c18d_cinv_of_old", "c18d_cinv_zero", "c18d_fresh_zero", "c18d_history_zero", "c18d_zero_instance",
+                       "c18d_clean_history_t_decide", "c18d_example", "c18d_example_start", "c18d_example_theorem", "c18d_example_boundary"]
+
+
 def run(ctx):
     K.core_check(ctx, "C18", "C18.v", OBLIGATIONS, RELEVANT,
                  "kcp.go vs coq/kcp/Kcp.v on clean-path simulations and forged-timestamp histories")
     K.extra_statements(ctx, "kcp", "C18b.v", CLEAN_OBLIGATIONS)
     K.extra_statements(ctx, "kcp", "C18c.v", TIMED_OBLIGATIONS)
+    K.extra_statements(ctx, "kcp", "C18d.v", CLEAN_T_OBLIGATIONS)
     ctx.coverage["rule"] = ("clean-path grid: FIFO loss-free constant delay D in {0,1,3,8,20,30,44} ms, intervals {10,20,40}, nodelay, resend {0,1,2}, nc, 7 window pairs, bursts, both drivers, "
                             "clock started just before the 2^32 ms wrap, kept only when 2D + peer interval < min RTO and rcv_wnd >= min(snd_wnd, 32); plus lossy histories with forged timestamps; "
                             "non-trivial = clean-path run that satisfies the preconditions, or a history with forged/retransmitted segments")
